@@ -553,7 +553,7 @@ fn gen_c17(ctx: &mut Ctx) {
         }
     }
     // the bridge alone: known, unknown and invalid lines; reply written back iff the bus replied
-    let tapes: Vec<(Vec<u8>, &str)> = vec![
+    let mut tapes: Vec<(Vec<u8>, &str)> = vec![
         (enc_msg("HE.3"), "hello"),
         (enc_msg("QS.5"), "absent-address"),
         (enc_msg("RO.3.RCF"), "request"),
@@ -607,6 +607,20 @@ fn gen_c17(ctx: &mut Ctx) {
             v
         }, "three-lines"),
     ];
+    // a valid line in which the first digit of a pair (a '0') is replaced by a sign or a blank: "+0" is not a hex pair
+    for m in ["RO.3.SRS", "HE.3", "SD.0.00010203"] {
+        let good = enc_msg(m);
+        for pos in (1..good.len() - 2).step_by(2) {
+            if good[pos] != b'0' {
+                continue;
+            }
+            for c in [b'+', b'-', b' '] {
+                let mut v = good.clone();
+                v[pos] = c;
+                tapes.push((v, "sign-in-hex-pair"));
+            }
+        }
+    }
     for (tape, class) in &tapes {
         for ws in [vec![], vec!["A0".to_string(), "I".to_string(), "A3".to_string()], vec!["F".to_string()]] {
           for steps in if *class == "three-lines" { vec![3] } else if class.ends_with("-then-valid") { vec![1, 2] } else { vec![1] } {
@@ -625,7 +639,7 @@ fn gen_c17(ctx: &mut Ctx) {
                     verdict = Some("an undecodable line must be a communication error that does not touch the bus".to_string());
                 }
             }
-            if (class.starts_with("invalid") && !class.ends_with("-then-valid")) || *class == "empty" || *class == "bad-checksum" {
+            if (class.starts_with("invalid") && !class.ends_with("-then-valid")) || *class == "empty" || *class == "bad-checksum" || *class == "sign-in-hex-pair" {
                 if !res.starts_with("COMM fwd=-") || !res.ends_with("UNC.-.0.cbf29ce484222325") {
                     verdict = Some("an undecodable line must be a communication error that does not touch the bus".to_string());
                 }
